@@ -12,43 +12,84 @@ class Model:
     pass
 
 
+class CtorSite:
+    """A place in the parent where a worker process is created: node = the call expression in the parent,
+    batch / queue = the argument expressions handed to the worker."""
+
+    def __init__(self, node, batch, queue):
+        self.node, self.batch, self.queue = node, batch, queue
+
+
+def _process_ctor(repo, f, call):
+    """If `call` is mp.Process(target=<program function>, args=(a, b)) -> (worker, a, b) else None."""
+    if isinstance(call, ast.Call) and norm(call.func).endswith("Process"):
+        tgt = [k.value for k in call.keywords if k.arg == "target"]
+        args = [k.value for k in call.keywords if k.arg == "args"]
+        if tgt:
+            w = repo.resolve_callable(f, tgt[0])
+            if w is not None:
+                a = args[0].elts if args and isinstance(args[0], ast.Tuple) else []
+                return w, (a[0] if len(a) > 0 else None), (a[1] if len(a) > 1 else None)
+    return None
+
+
 def build(ctx, rule):
     repo = ctx.repo
     mod = repo.module("gaftools.cli.realign", rule)
     m = Model()
     m.mod = mod
-    # parent: the function that creates processes with mp.Process(target=<program function>)
+    # parent: the function whose while-loops read a multiprocessing queue created in that same function
     m.parent = None
-    m.worker = None
-    m.proc_ctor_calls = []
     for f in mod.funcs.values():
+        chans = set()
         for n in walk_own(f.node):
-            if isinstance(n, ast.Call) and norm(n.func).endswith("Process"):
-                tgt = [k.value for k in n.keywords if k.arg == "target"]
-                if tgt:
-                    w = repo.resolve_callable(f, tgt[0])
-                    if w is not None:
-                        m.parent = f
-                        m.worker = w
-                        m.proc_ctor_calls.append(n)
-    if m.parent is None or m.worker is None:
-        raise AnalysisError(rule, mod.relpath, "cannot find the parent that creates worker processes (mp.Process(target=...))")
+            if isinstance(n, ast.Assign) and isinstance(n.value, ast.Call) and len(n.targets) == 1:
+                fn = norm(n.value.func)
+                if fn.endswith(".Queue") and not fn.startswith("queue."):
+                    chans.add(norm(n.targets[0]))
+        if chans and any(isinstance(w, ast.While) and any(isinstance(c, ast.Call) and isinstance(c.func, ast.Attribute) and c.func.attr in ("get", "get_nowait") and norm(c.func.value) in chans for c in ast.walk(w)) for w in walk_own(f.node)):
+            m.parent = f
+            m.channels = chans
+    if m.parent is None:
+        raise AnalysisError(rule, mod.relpath, "cannot find the parent (function whose loops read a multiprocessing queue it created)")
+    pf = m.parent
+    # worker and constructor sites (directly, or through a helper that returns the Process)
+    m.worker = None
+    m.ctor_sites = []
+    for n in walk_own(pf.node):
+        if not isinstance(n, ast.Call):
+            continue
+        d = _process_ctor(repo, pf, n)
+        if d:
+            m.worker = d[0]
+            m.ctor_sites.append(CtorSite(n, d[1], d[2]))
+            continue
+        h = repo.resolve_call(pf, n)
+        if h is not None and h.module is mod and h is not pf:
+            rets = [r for r in walk_own(h.node) if isinstance(r, ast.Return) and r.value is not None]
+            if len(rets) == 1:
+                d = _process_ctor(repo, h, rets[0].value)
+                if d:
+                    params = h.params
+                    amap = {p_: a for p_, a in zip(params, n.args)}
+                    for k in n.keywords:
+                        amap[k.arg] = k.value
+                    b = amap.get(norm(d[1])) if d[1] is not None else None
+                    q = amap.get(norm(d[2])) if d[2] is not None else None
+                    m.worker = d[0]
+                    m.ctor_sites.append(CtorSite(n, b, q))
+                    ctx.analysed_func(h)
+    if m.worker is None:
+        raise AnalysisError(rule, pf.where(), "cannot find where worker processes are created (mp.Process(target=...))")
+    m.proc_ctor_calls = [c.node for c in m.ctor_sites]
     ctx.analysed_func(m.parent)
     ctx.analysed_func(m.worker)
-    pf = m.parent
-    # channel variables: assigned from <mp>.Queue()
-    m.channels = set()
     m.pqueues = set()
     for n in walk_own(pf.node):
         if isinstance(n, ast.Assign) and isinstance(n.value, ast.Call) and len(n.targets) == 1:
-            fn = norm(n.value.func)
-            if fn.endswith("PriorityQueue"):
+            if norm(n.value.func).endswith("PriorityQueue"):
                 m.pqueues.add(norm(n.targets[0]))
-            elif fn.endswith(".Queue") and not fn.startswith("queue."):
-                m.channels.add(norm(n.targets[0]))
-    if not m.channels:
-        raise AnalysisError(rule, pf.where(), "cannot find the multiprocessing result queue")
-    # process list variable: X.append(mp.Process(...))
+    # process list variable: X.append(<ctor site>)
     m.proc_lists = set()
     for n in walk_own(pf.node):
         if isinstance(n, ast.Call) and isinstance(n.func, ast.Attribute) and n.func.attr == "append" and n.args and any(n.args[0] is c for c in m.proc_ctor_calls):
@@ -252,6 +293,12 @@ def test_facts(repo, func, expr, pol):
     while isinstance(expr, ast.UnaryOp) and isinstance(expr.op, ast.Not):
         expr = expr.operand
         pol = not pol
+    if isinstance(expr, ast.BoolOp):
+        # a true conjunction makes every conjunct true; a false disjunction makes every disjunct false
+        if isinstance(expr.op, ast.And) == pol:
+            for v in expr.values:
+                facts.update(test_facts(repo, func, v, pol))
+        return facts
     if isinstance(expr, ast.Call):
         hk = helper_kind(repo, func, expr)
         if hk and not hk["problem"]:
